@@ -356,3 +356,12 @@ def dump_with_literal_zone(p, dumper, parser, fmt, zh, zm):
     assert q._time_zone._hours == zh and q._time_zone._minutes == zm
     assert valid_date(q) and time_normal24(q)
     assert is_cal(q) == is_cal(p) and is_ord(q) == is_ord(p) and is_week(q) == is_week(p)
+
+
+def dump_custom_format(p, dumper, parser, fmt):
+    # C08: a custom format with a complete date, the time down to seconds and a zone
+    # parses back to an equal instant (whatever representation the format asks for)
+    s = dumper.dump(p, fmt)
+    q = parser.parse(s)
+    assert q == p
+    assert valid_date(q) and time_normal24(q)
